@@ -7,6 +7,7 @@ package web
 import (
 	"context"
 	"errors"
+	"io"
 	"net"
 	"net/http"
 	"net/url"
@@ -32,6 +33,7 @@ import (
 //vp:all stub time.Until = vpUntil
 //vp:all stub time.Since = vpSince
 //vp:all stub (*net/url.URL).Query = vpURLQuery
+//vp:all stub net/http.MaxBytesReader = vpMaxBytesReader
 //vp:all stub (*net/http.Request).FormValue = vpFormValue
 //vp:all stub (*net/http.Request).PostFormValue = vpPostFormValue
 
@@ -218,3 +220,42 @@ func vpNow() time.Time {
 
 func vpHeaderValues(w *vpRW, key string) []string { return w.hdr[key] }
 
+
+
+// http.MaxBytesReader as documented: reads fail once more than n bytes have been read.
+type vpMaxBytes struct {
+	r    io.ReadCloser
+	left int64
+}
+
+func (m *vpMaxBytes) Read(p []byte) (int, error) {
+	if m.left <= 0 {
+		return 0, errors.New("http: request body too large")
+	}
+	if int64(len(p)) > m.left {
+		p = p[:m.left]
+	}
+	n, err := m.r.Read(p)
+	m.left -= int64(n)
+	return n, err
+}
+func (m *vpMaxBytes) Close() error { return m.r.Close() }
+func vpMaxBytesReader(w http.ResponseWriter, r io.ReadCloser, n int64) io.ReadCloser {
+	return &vpMaxBytes{r: r, left: n}
+}
+
+// vpSizedBody: a request body of a given size (content irrelevant).
+type vpSizedBody struct{ left int }
+
+func (b *vpSizedBody) Read(p []byte) (int, error) {
+	if b.left == 0 {
+		return 0, io.EOF
+	}
+	n := len(p)
+	if n > b.left {
+		n = b.left
+	}
+	b.left -= n
+	return n, nil
+}
+func (b *vpSizedBody) Close() error { return nil }
